@@ -636,6 +636,60 @@ h_new_buff_null(int size)
     finish(s);
 }
 
+/* C05: dup is independent - mutating or deleting either object never changes or invalidates the other */
+static void
+h_dup_indep(int len, int slack)
+{
+    model m, dm;
+    STR_T s = mk_state(len, slack, &m), d, d2;
+
+    d = F(dup)(s);
+    CHECK("dup returns an object", d != NULL);
+    if (!d) {
+        return;
+    }
+    CHECK("dup is of the same class", SPIF_OBJ_CLASS(d) == SPIF_OBJ_CLASS(s));
+    CHECK("type() names the object's class", F(type)(s) == SPIF_OBJ_CLASSNAME(s));
+    dm = m;
+    F(append_char)(d, 'x');
+    dm.t[dm.len++] = 'x';
+    dm.t[dm.len] = 0;
+    check_state(d, &dm);
+    check_state(s, &m);                 /* mutating the copy left the original alone */
+    F(del)(d);
+    check_state(s, &m);                 /* deleting the copy left the original valid */
+    d2 = F(dup)(s);
+    F(append_char)(s, 'y');
+    F(del)(s);
+    if (d2) {
+        check_state(d2, &m);            /* mutating and deleting the original left the copy valid */
+    }
+    finish(d2);
+}
+
+/* C05: comp laws on three arbitrary strings */
+static void
+h_comp_laws(int l1, int l2, int l3)
+{
+    model ma, mb, mc;
+    STR_T a = mk_state(l1, l1 ? 0 : -1, &ma), b = mk_state(l2, 1, &mb), c = mk_state(l3, 0, &mc);
+    int ab = (int) F(comp)(a, b), ba = (int) F(comp)(b, a), bc = (int) F(comp)(b, c), ac = (int) F(comp)(a, c), i, same;
+
+    CHECK("comp is reflexive", (int) F(comp)(a, a) == 0 && (int) F(comp)(b, b) == 0);
+    CHECK("comp is antisymmetric", ab == -ba);
+    CHECK("comp is transitive", !(ab <= 0 && bc <= 0) || ac <= 0);
+    CHECK("comp: equal then transitive equal", !(ab == 0 && bc == 0) || ac == 0);
+    same = (l1 == l2);
+    for (i = 0; same && i < l1; i++) {
+        same = (ma.t[i] == mb.t[i]);
+    }
+    CHECK("comp reports equality exactly for equal texts", (ab == 0) == (same != 0));
+    CHECK("NULL orders before every object", (int) F(comp)(a, (STR_T) NULL) == 1 && (int) F(comp)((STR_T) NULL, a) == -1 && (int) F(comp)((STR_T) NULL, (STR_T) NULL) == 0);
+    F(del)(b);
+    F(del)(c);
+    finish(a);
+}
+
 #ifdef VERIF_STREAMS
 #include <errno.h>
 #include "env_io.h"
